@@ -314,7 +314,8 @@ def check_case(ctx, case, max_runs):
                                             **({"s": {sw.get(c, c): v for c, v in bb["s"].items()}} if bb.get("s") else {}))
                                        for bb in spec["ballots"]]}
                     ctx.count("swapped_name_siblings")
-                    check_case(ctx, {"cfg": cfg, "profile": sib, "tag": "sibling", "is_sibling": True}, max_runs)
+                    check_case(ctx, {"cfg": cfg, "profile": sib, "tag": "sibling", "is_sibling": True,
+                                     "prelude": {"cfg": cfg, "profile": spec, "tag": case.get("tag"), "is_sibling": True}}, max_runs)
     oks = [s for s in sigs if s[1] is not None]
     if len(oks) > 1:
         ctx.count("script_groups_compared")
